@@ -97,6 +97,29 @@ def instances(tier):
                      dict(consistency_alg_idx=galg, var_heuristic_idx=H.VAR_HEURISTIC_GREATEST_DOMAIN,
                           dom_heuristic_idx=H.DOM_HEURISTIC_SPLIT_LOW)] if (k <= 7 and sym) or k <= 6 else
                     [dict(consistency_alg_idx=galg, dom_heuristic_idx=H.DOM_HEURISTIC_MAX_VALUE)]))
+            # ... and under search orders other than the default one (the custom algorithm reasons about "the marks placed so
+            # far": decision domains restricted to the marks, listed backwards, all variables backwards) x every heuristic pair
+            if (k in (5, 6)) or (k == 7 and sym) or (k == 8 and sym and not q):
+                marks = list(range(k - 1))
+                nvar = k * (k - 1) // 2
+                orders = [("marks", marks), ("marks_reversed", marks[::-1]), ("all_reversed", list(range(nvar - 1, -1, -1)))]
+                vhs = [H.VAR_HEURISTIC_FIRST_NOT_INSTANTIATED, H.VAR_HEURISTIC_SMALLEST_DOMAIN,
+                       H.VAR_HEURISTIC_GREATEST_DOMAIN]
+                dhs = [H.DOM_HEURISTIC_MIN_VALUE, H.DOM_HEURISTIC_MAX_VALUE, H.DOM_HEURISTIC_MID_VALUE,
+                       H.DOM_HEURISTIC_SPLIT_LOW]
+                cf = []
+                for oname, dd in orders:
+                    for vh in vhs:
+                        for dh in dhs:
+                            if k >= 7 and q and vh != H.VAR_HEURISTIC_GREATEST_DOMAIN:
+                                continue
+                            if k == 8 and not (vh == H.VAR_HEURISTIC_GREATEST_DOMAIN and dh in dhs[2:]):
+                                continue
+                            cf.append(dict(consistency_alg_idx=galg, decision_domains=list(dd), var_heuristic_idx=vh,
+                                           dom_heuristic_idx=dh))
+                add(name="golomb-%d-%s-orders" % (k, "sym" if sym else "nosym"), family="golomb", kind="min",
+                    make=lambda k=k, sym=sym: GolombProblem(k, sym), objective=lambda p: p.length_idx,
+                    validator=S.v_golomb(k), optimum=S.GOLOMB[k], cfgs=cf)
     from nucs.examples.bibd.bibd_problem import BIBDProblem
 
     for prm, cnt in ([((6, 10, 5, 3, 2), 1), ((7, 7, 3, 3, 1), 1)] + ([] if q else [((8, 14, 7, 4, 3), 92)])):
